@@ -123,6 +123,19 @@ pub fn install_panic_hook() {
                 loc = format!("{} (via {})", f, loc);
             }
         }
+        // A managed worker thread of the thread scheduler.
+        let taken = crate::core::threads::WORKER_PANICS
+            .try_with(|w| match &*w.borrow() {
+                Some(sink) => {
+                    sink.lock().unwrap().push((loc.clone(), msg.clone()));
+                    true
+                }
+                None => false,
+            })
+            .unwrap_or(false);
+        if taken {
+            return;
+        }
         let pi = PanicInfo { location: loc, message: msg };
         let is_sim = IS_SIM_THREAD.try_with(|c| c.get()).unwrap_or(false);
         if is_sim {
@@ -151,7 +164,35 @@ pub fn foreign_panics() -> Vec<PanicInfo> {
 /// virtual clock (1 ms, doubling up to 1 s while the spin persists).
 const SPIN_POLLS: u64 = 1024;
 
+/// `spawn_blocking` work (the XFR middleware's zone walk) runs on a real
+/// thread the simulator does not schedule. To keep it from racing with the
+/// tasks on the simulation thread, no task is polled while blocking work is
+/// outstanding: the simulation thread waits (real time, bounded) until the
+/// blocking pool is idle again. What the blocking work produced is then
+/// complete before anybody looks at it.
+fn wait_for_blocking_work() {
+    let h = match tokio::runtime::Handle::try_current() {
+        Ok(h) => h,
+        Err(_) => return,
+    };
+    let m = h.metrics();
+    let busy = |m: &tokio::runtime::RuntimeMetrics| m.num_blocking_threads() > m.num_idle_blocking_threads() || m.blocking_queue_depth() > 0;
+    if !busy(&m) {
+        return;
+    }
+    let start = super::interpose::real_now_ns();
+    while busy(&m) {
+        std::thread::yield_now();
+        if super::interpose::real_now_ns() - start > 5_000_000_000 {
+            // (A walk blocked on its bounded channel would wait for us.)
+            sim::stat("probe.blocking_work_not_awaited");
+            break;
+        }
+    }
+}
+
 fn before_task_poll() {
+    wait_for_blocking_work();
     let n = POLLS.with(|c| {
         let n = c.get() + 1;
         c.set(n);
